@@ -425,6 +425,16 @@ static txrec *on_tx_event2(runctx *x, int hk, htp_tx_t *tx, int side, int rank, 
         viol(x, "C09", "callback_after_failure", "%s ran during a data call for a direction that had already reported %s",
              hx_hook_name[hk], x->failed[x->cur_dir - 1] == HTP_STREAM_STOP ? "STOP" : "ERROR");
     }
+    if (x->cur_dir == 3 && hk != HK_LOG && hk != HK_TRANSACTION_COMPLETE && (side == 0 || side == 1) && x->failed[side]) {
+        /* htp_connp_close / htp_connp_req_close make the final call for a direction themselves: a direction that reported ERROR stays
+         * failed (the close functions say so) and runs nothing.  A direction that reported STOP is put into CLOSED by the unchanged
+         * close functions and then finishes its message; the property speaks about data calls, so that is counted, not judged. */
+        CHECK(x);
+        if (x->failed[side] == HTP_STREAM_ERROR)
+            viol(x, "C09", "callback_after_failure_at_close", "%s ran during a close call for the %s direction, which had already reported ERROR",
+                 hx_hook_name[hk], side ? "response" : "request");
+        else x->r->st.cb_after_stop_at_close++;
+    }
     CHECK(x);
     /* A raw-data receiver can fire with d->tx == NULL after a response without request re-pointed the
      * request side (observed on the pinned tree; Suricata guards against it).  The library itself does
@@ -776,6 +786,8 @@ static htp_cfg_t *build_cfg(runctx *x) {
     if (cf[CF_LOG_LEVEL] >= 0) htp_config_set_log_level(cfg, (enum htp_log_level_t) cf[CF_LOG_LEVEL]);
     if (cf[CF_FIELD_HARD] > 0) htp_config_set_field_limits(cfg, (size_t) (cf[CF_FIELD_SOFT] > 0 ? cf[CF_FIELD_SOFT] : cf[CF_FIELD_HARD] / 2), (size_t) cf[CF_FIELD_HARD]);
     if (cf[CF_MAX_TX] >= 0) htp_config_set_max_tx(cfg, (uint32_t) cf[CF_MAX_TX]);
+    if (cf[CF_HDR_LIMIT] > 0) htp_config_set_number_headers_limit(cfg, (uint32_t) cf[CF_HDR_LIMIT]);
+    if (cf[CF_LEADING_WS] > 0) htp_config_set_requestline_leading_whitespace_unwanted(cfg, HTP_DECODER_DEFAULTS, cf[CF_LEADING_WS] == 1 ? HTP_UNWANTED_IGNORE : (cf[CF_LEADING_WS] == 2 ? HTP_UNWANTED_400 : HTP_UNWANTED_404));
     if (cf[CF_LAYER_LIMIT] >= 0) htp_config_set_response_decompression_layer_limit(cfg, cf[CF_LAYER_LIMIT]);
     if (cf[CF_BOMB_LIMIT] > 0) htp_config_set_compression_bomb_limit(cfg, (size_t) cf[CF_BOMB_LIMIT]);
     if (cf[CF_LZMA_MEMLIMIT] >= 0) htp_config_set_lzma_memlimit(cfg, (size_t) cf[CF_LZMA_MEMLIMIT]);
@@ -1016,6 +1028,18 @@ static int feed(runctx *x, int d) {
     return 1;
 }
 
+/* C09 at the close calls: a direction that reported ERROR still reports ERROR afterwards */
+static void close_checks(runctx *x, int dirs) {
+    for (int d = 0; d < 2; d++) {
+        if (!(dirs & (1 << d)) || x->failed[d] != HTP_STREAM_ERROR) continue;
+        x->r->st.closes_after_error++;
+        CHECK(x);
+        enum htp_stream_state_t now = d == 0 ? x->connp->in_status : x->connp->out_status;
+        if (now != HTP_STREAM_ERROR)
+            viol(x, "C09", d ? "res_failure_lost_at_close" : "req_failure_lost_at_close", "direction had reported ERROR, its state after the close call is %d", (int) now);
+    }
+}
+
 static void destroy_done(runctx *x) {
     htp_connp_t *p = x->connp;
     /* DESTROY_DONE == 2: streaming mode proper - disposal is left to tx_auto_destroy, the application only recycles the slots */
@@ -1137,6 +1161,7 @@ int hx_run(const hx_case *c, hx_result *r) {
                 YIELD();
                 COST_API(htp_connp_req_close(x->connp, &tv));
                 x->cur_dir = 0;
+                close_checks(x, 1);
                 boundary_checks(x);
                 /* request data after the request stream was closed would be API misuse */
                 x->qh[0] = x->qn[0];
@@ -1151,6 +1176,7 @@ int hx_run(const hx_case *c, hx_result *r) {
                 COST_API(htp_connp_close(x->connp, &tv));
                 x->cur_dir = 0;
                 x->closed = 1;
+                close_checks(x, 3);
                 boundary_checks(x);
                 break;
             }
